@@ -49,6 +49,10 @@ func anchorsOf(ins ssa.Instruction) []string {
 			if fa, ok := u.X.(*ssa.FieldAddr); ok {
 				return fieldName(fa)
 			}
+			// calls of local function variables: finalizeCurPacket(true)
+			if a, ok := u.X.(*ssa.Alloc); ok && a.Comment != "" {
+				return a.Comment
+			}
 		}
 		return ""
 	}
@@ -137,6 +141,15 @@ func (x *Exec) checkAsserts(fr *frame, st *State, ins ssa.Instruction) {
 		return
 	}
 	env := x.envAt(fr, st, nil)
+	// arg(i): the i-th argument of the anchored call (receiver excluded for bound calls)
+	if ci, ok := ins.(ssa.CallInstruction); ok {
+		for i, a := range ci.Common().Args {
+			func() {
+				defer func() { recover() }()
+				env.vars[fmt.Sprintf("$arg%d", i)] = x.val(fr, a)
+			}()
+		}
+	}
 	for _, cl := range cls {
 		t, err := env.EvalBool(cl.E)
 		if err != nil {
